@@ -14,6 +14,8 @@ enum Case {
     Symbols,
     /// length n, operands at symbol offsets s1 / s2: every symbol pair at every position
     Ops { n: usize, s1: usize, s2: usize },
+    /// long operands: symbol pairs only at positions next to word boundaries and ends
+    OpsLong { n: usize, s1: usize, s2: usize },
     /// contains: all symbol pairs at length 1 (first = None) / all pairs of pairs at length 2 with first pattern symbol fixed
     ContainsSmall { n: usize, first: u8 },
     /// contains: one-position family at length n with operands at offsets s1 / s2
@@ -28,10 +30,20 @@ fn gen(t: Tier, _seed: u64, emit: &mut dyn FnMut(Case)) {
     emit(Case::Symbols);
     let lens: Vec<usize> = t.pick(vec![1, 2, 3, 15, 16, 17], vec![1, 2, 3, 15, 16, 17, 31, 32, 33, 48]);
     for &n in &lens {
-        for s1 in 0..16 {
-            for s2 in 0..16 {
-                emit(Case::Ops { n, s1, s2 });
+        for s1 in 0..16usize {
+            for s2 in 0..16usize {
+                // quick: all 256 alignment pairs for n <= 3; for longer operands the pairs with one
+                // operand at a special alignment, the diagonal and the anti-diagonal
+                let special = |s: usize| s == 0 || s == 1 || s == 9 || s == 15;
+                if t.thorough() || n <= 3 || special(s1) || special(s2) || s1 == s2 || s1 + s2 == 15 {
+                    emit(Case::Ops { n, s1, s2 });
+                }
             }
+        }
+    }
+    for n in long_lengths(4) {
+        for (s1, s2) in [(0usize, 0usize), (1, 15), (9, 2), (15, 8)] {
+            emit(Case::OpsLong { n, s1, s2 });
         }
     }
     emit(Case::ContainsSmall { n: 1, first: 0 });
@@ -59,12 +71,32 @@ fn gen(t: Tier, _seed: u64, emit: &mut dyn FnMut(Case)) {
 
 /// oracle: nucleotide set of an IUPAC symbol by its letter
 fn set(a: Iupac) -> u8 {
-    spec::iupac_set_of_letter(a.to_char() as u8).expect("IUPAC letter")
+    // by letter (oracle), memoised per display character
+    static TABLE: std::sync::OnceLock<[u8; 256]> = std::sync::OnceLock::new();
+    let t = TABLE.get_or_init(|| {
+        let mut t = [255u8; 256];
+        for b in 0..=255u8 {
+            if let Some(s) = spec::iupac_set_of_letter(b) {
+                t[b as usize] = s;
+            }
+        }
+        t
+    });
+    let s = t[a.to_char() as u8 as usize];
+    assert!(s != 255, "IUPAC letter");
+    s
 }
 
 fn by_set(s: u8) -> Iupac {
-    let l = spec::iupac_letter_of_set(s);
-    alphabet::<Iupac>().into_iter().find(|a| a.to_char() as u8 == l).unwrap()
+    static TABLE: std::sync::OnceLock<Vec<Iupac>> = std::sync::OnceLock::new();
+    TABLE.get_or_init(|| {
+        (0..16u8)
+            .map(|s| {
+                let l = spec::iupac_letter_of_set(s);
+                alphabet::<Iupac>().into_iter().find(|a| a.to_char() as u8 == l).unwrap()
+            })
+            .collect()
+    })[s as usize]
 }
 
 fn ops_one(a: &[Iupac], b: &[Iupac], s1: usize, s2: usize, out: &mut Out) {
@@ -211,6 +243,34 @@ fn run(c: &Case, out: &mut Out) {
                         b[p] = y;
                         ops_one(&a, &b, *s1, *s2, out);
                     }
+                }
+                a[p] = ba[p];
+                b[p] = bb[p];
+            }
+        }
+        Case::OpsLong { n, s1, s2 } => {
+            out.dim("len", *n as i64);
+            let ba = syms::<Iupac>(&bg(*n, 16, 52, out.seed));
+            let bb = syms::<Iupac>(&bg(*n, 16, 53, out.seed));
+            ops_one(&ba, &bb, *s1, *s2, out);
+            contains_one(&ba, &bb, *s1, *s2, out);
+            let (mut a, mut b) = (ba.clone(), bb.clone());
+            let mut pos: Vec<usize> = vec![0, *n - 1];
+            let mut w = 16;
+            while w < *n {
+                pos.extend([w - 1, w]);
+                w += 16 * 3;
+            }
+            for p in pos {
+                for (i, &x) in al.iter().enumerate() {
+                    let y = al[(i * 7 + p) % 16];
+                    a[p] = x;
+                    b[p] = y;
+                    ops_one(&a, &b, *s1, *s2, out);
+                    // pattern = union, argument = b: contained; argument with an extra member: not
+                    let uni: Vec<Iupac> = a.iter().zip(&b).map(|(x, y)| by_set(set(*x) | set(*y))).collect();
+                    contains_one(&uni, &b, *s1, *s2, out);
+                    contains_one(&b, &uni, *s2, *s1, out);
                 }
                 a[p] = ba[p];
                 b[p] = bb[p];
